@@ -25,6 +25,7 @@ unsafe def main (args : List String) : IO UInt32 := do
     match ci with
     | .thmInfo _ =>
       if n.isInternal then continue
+      if !(modName.isPrefixOf n) then continue
       let ctx : Core.Context := { fileName := "<audit>", fileMap := default }
       let (arr, _) ← (Lean.collectAxioms n : CoreM _).toIO ctx { env := env }
       let axs := arr.toList.map (fun a => jsonStr a.toString)
